@@ -3,7 +3,7 @@
 mkdir -p /verif/build/seedres
 SRC=${1:-/tmp/mut}
 for id in C01 C02 C03 C04 C05 C06 C07 C08 C09 C10 C11 C12 C13 C14 C15 C16 C17 C18 C19 C20; do
-  for k in ${KS:-1 2 3 4 5 6 7 8}; do
+  for k in ${KS:-1 2 3 4 5 6 7 8 9 10}; do
     d=$SRC/$id-out
     [ -f $d/patch$k.diff ] && [ -f $d/meta$k.json ] && [ -f $d/demo$k.py ] || continue
     [ -s /verif/build/seedres/$id-$k.json ] && grep -q '"caught"' /verif/build/seedres/$id-$k.json && continue
